@@ -180,12 +180,13 @@ Proof.
   destruct (is_tnl c) eqn:E; [exact IH|]. cbn [drop_while]. rewrite E. reflexivity.
 Qed.
 
-Theorem parse_userinfo_spec (P : Prop) ser l : usv_list l ->
+Theorem parse_userinfo_spec ser l : usv_list l ->
   match fst (after_at (ntnl l)) with
-  | None => (U32_MAX_P < nlen ser -> P) -> oob P (parse_userinfo STNotSpecial ser l) (ser, nlen ser, l)
+  | None => forall P : Prop, (U32_MAX_P < nlen ser -> P) -> oob P (parse_userinfo STNotSpecial ser l) (ser, nlen ser, l)
   | Some w =>
       if is_nil w && starts_ae (snd (after_at (ntnl l))) then parse_userinfo STNotSpecial ser l = PErr EmptyHost
       else exists rem, ntnl rem = snd (after_at (ntnl l)) /\ usv_list rem /\
+           forall P : Prop,
            ((U32_MAX_P < nlen (ser ++ cred_text (encU (cr_user w)) (encU (cr_pass w))) -> P) ->
             oob P (parse_userinfo STNotSpecial ser l)
                 (ser ++ cred_text (encU (cr_user w)) (encU (cr_pass w)), nlen ser + nlen (encU (cr_user w)), rem))
@@ -194,7 +195,7 @@ Proof.
   intros Hu. unfold after_at, parse_userinfo. cbn [st_is_special].
   pose proof (scan_spec l 0 None Hu) as HS.
   destruct (last_at (a_part (ntnl l))) as [[w h]|] eqn:Ela; cbn [fst snd].
-  2:{ rewrite HS. intros HP. eapply oob_bind; [apply oob_u32; exact HP | apply oob_ret]. }
+  2:{ rewrite HS. intros P HP. eapply oob_bind; [apply oob_u32; exact HP | apply oob_ret]. }
   destruct HS as (rem & Escan & Hrem & Hurem). rewrite Escan, N.add_0_l.
   destruct w as [|c0 w'].
   - (* "@host": no credentials, the '@' is skipped *)
@@ -205,9 +206,9 @@ Proof.
       exists rem. split; [exact E1 | split; [exact Hurem|]].
       change (encU (cr_user [])) with (@nil N). change (encU (cr_pass [])) with (@nil N).
       cbn [cred_text is_nil andb]. rewrite app_nil_r, nlen_nil, N.add_0_r.
-      intros HP. eapply oob_bind; [apply oob_u32; exact HP | apply oob_ret].
+      intros P HP. eapply oob_bind; [apply oob_u32; exact HP | apply oob_ret].
     + rewrite (inp_next_none_ntnl rem En). reflexivity.
-  - cbn [is_nil andb]. exists rem. split; [exact Hrem | split; [exact Hurem|]]. intros HP.
+  - cbn [is_nil andb]. exists rem. split; [exact Hrem | split; [exact Hurem|]]. intros P HP.
     set (w := c0 :: w') in *.
     assert (exists p, nlen w = N.pos p) as [p Ep] by (unfold w, nlen; cbn [length N.of_nat]; eexists; reflexivity).
     rewrite Ep.
@@ -356,7 +357,7 @@ Variable shp : bool -> list N -> option spec_host.
 Variable shs : spec_host -> list N.
 
 (* ---------- parse_host_and_port ---------- *)
-Theorem hp_spec (P : Prop) sch ser1 rem u : usv_list rem -> scheme_type_of sch = STNotSpecial ->
+Theorem hp_spec sch ser1 rem u : usv_list rem -> scheme_type_of sch = STNotSpecial ->
   (exists tl, ser1 = sch ++ tl) -> su_port u = None ->
   let HR := ntnl rem in
   let Hh := hs_host false HR in
@@ -374,9 +375,9 @@ Theorem hp_spec (P : Prop) sch ser1 rem u : usv_list rem -> scheme_type_of sch =
         /\ (Hh = [] -> port = None) /\ (forall p, port = Some p -> p <= 65535)
         /\ ntnl rem' = X /\ usv_list rem' /\ starts_ae X = true
         /\ su = sauth_tail (set_port (set_host u (Some sh)) port) X
-        /\ ((U32_MAX_P < nlen (ser1 ++ hd host) -> P) ->
+        /\ (forall P : Prop, (U32_MAX_P < nlen (ser1 ++ hd host) -> P) ->
             oob P (parse_host_and_port hp hpo hd CUrlParser STNotSpecial (nlen sch) ser1 rem)
-                (ser1 ++ hd host ++ port_suffix port, nlen (ser1 ++ hd host), hi_of_host host, port, rem'))
+                ((ser1 ++ hd host) ++ port_suffix port, nlen (ser1 ++ hd host), hi_of_host host, port, rem'))
   end.
 Proof.
   intros Hu Hns Hsch Hpo HR Hh X HA Hbs.
@@ -447,16 +448,16 @@ Proof.
               split; [intros p Hp; discriminate Hp|].
               split; [exact Hrem4|]. split; [exact Hu4|]. split; [exact Esae|].
               split; [rewrite set_port_none; [reflexivity | exact Hpo]|].
-              intros HP. eapply oob_bind; [apply oob_u32; exact HP|]. rewrite Echk. cbn [pbind]. rewrite EPL. cbn [pbind].
+              intros P HP. eapply oob_bind; [apply oob_u32; exact HP|]. rewrite Echk. cbn [pbind]. rewrite EPL. cbn [pbind].
               cbn [ctx_eqb andb negb orb pbind port_suffix]. rewrite app_nil_r. right. reflexivity.
            ++ exists host, sh, (Some (decimal_value (digits_of PR))), rem4.
               split; [reflexivity|]. split; [reflexivity|]. split; [intros K; contradiction|].
               split; [intros p Hp; inversion Hp; subst; lia|].
               split; [exact Hrem4|]. split; [exact Hu4|]. split; [exact Esae|].
               split; [reflexivity|].
-              intros HP. eapply oob_bind; [apply oob_u32; exact HP|]. rewrite Echk. cbn [pbind]. rewrite EPL. cbn [pbind].
+              intros P HP. eapply oob_bind; [apply oob_u32; exact HP|]. rewrite Echk. cbn [pbind]. rewrite EPL. cbn [pbind].
               cbn [ctx_eqb andb negb orb]. rewrite Edp. cbn [opt_eqb pbind port_suffix].
-              rewrite <- app_assoc. right. reflexivity.
+              right. reflexivity.
       * (* something else follows the digits: failure, unless it is '\' after a valid port *)
         assert (mfail (' (port, rem4) <~ (' (p, any, rem0) <~ parse_port_loop CUrlParser rem3 0 false;;
                         (if negb any && ctx_eqb CUrlParser CSetter && negb (inp_is_empty rem0) then PErr InvalidPort
@@ -487,7 +488,7 @@ Proof.
     split; [reflexivity|]. split; [reflexivity|]. split; [reflexivity|]. split; [intros p Hp; discriminate Hp|].
     split; [exact Hrem2|]. split; [exact Hu2|]. split; [exact Esae|].
     split; [rewrite set_port_none; [reflexivity | exact Hpo]|].
-    intros HP. eapply oob_bind; [apply oob_u32; exact HP|].
+    intros P HP. eapply oob_bind; [apply oob_u32; exact HP|].
     rewrite Esw. cbn [st_is_special]. rewrite Esp.
     assert (match host with HDomain [] => POk tt | _ => POk tt end = @POk unit tt) as -> by (destruct host as [[|a b]| |]; reflexivity).
     cbn [pbind port_suffix]. rewrite app_nil_r. right. reflexivity.
